@@ -6,6 +6,7 @@ Classes for achieving the name mangling effect.
 from __future__ import unicode_literals
 
 import logging
+import re
 from operator import itemgetter
 from itertools import count
 from itertools import product
@@ -25,6 +26,23 @@ from calmjs.parse.handlers.core import token_handler_unobfuscate
 
 logger = logging.getLogger(__name__)
 logger.level = logging.WARNING
+
+
+unichr = chr if str is not bytes else unichr  # noqa: F821
+patt_unicode_escape = re.compile(r'\\u([0-9a-fA-F]{4})')
+
+
+def symbol_of(value):
+    """
+    The name an identifier stands for: one written with unicode escape
+    sequences (7.6) is the same name as its plain spelling.
+    """
+
+    if '\\' not in value:
+        return value
+    return patt_unicode_escape.sub(
+        lambda m: unichr(int(m.group(1), 16)), value)
+
 
 ID_CHARS = 'abcdefghijklmnopqrstuvwxyzABCDEFGHIJKLMNOPQRSTUVWXYZ_'
 
@@ -274,7 +292,7 @@ class CatchScope(Scope):
         self.node = node
         self.parent = parent
         self.children = []
-        self.catch_symbol = node.identifier.value
+        self.catch_symbol = symbol_of(node.identifier.value)
         self.catch_symbol_usage = 0
         self.remapped_symbols = {}
         self._closed = False
@@ -434,7 +452,7 @@ class Obfuscator(object):
         in as used in the current scope.
         """
 
-        self.current_scope.declare(node.value)
+        self.current_scope.declare(symbol_of(node.value))
 
     def register_reference(self, dispatcher, node):
         """
@@ -447,7 +465,7 @@ class Obfuscator(object):
         # This should probably WARN about the node object being already
         # assigned to an existing scope that isn't current_scope.
         self.identifiers[node] = self.current_scope
-        self.current_scope.reference(node.value)
+        self.current_scope.reference(symbol_of(node.value))
 
     def shadow_reference(self, dispatcher, node):
         """
@@ -457,7 +475,7 @@ class Obfuscator(object):
 
         # as opposed to the previous one, only add the value of the
         # identifier itself to the scope so that it becomes reserved.
-        self.current_scope.reference(node.identifier.value)
+        self.current_scope.reference(symbol_of(node.identifier.value))
 
     def resolve(self, dispatcher, node):
         """
@@ -468,7 +486,10 @@ class Obfuscator(object):
         scope = self.identifiers.get(node)
         if not scope:
             return node.value
-        return scope.resolve(node.value)
+        symbol = symbol_of(node.value)
+        resolved = scope.resolve(symbol)
+        # a name that is not remapped keeps the spelling it was written in
+        return node.value if resolved == symbol else resolved
 
     def walk(self, dispatcher, node):
         """
